@@ -168,47 +168,58 @@ def rule_1(ctx):
     ctx.floor(20, 'inspections of token text in parser/tokenizer/operand node/XLFormula')
 
 
-def _main_loop(ctx):
+def _roles(ctx):
+    """Roles of the closures/locals of getTokens, found by what they do (not by their names)."""
     tm = ctx.mod('tokenizer')
     fn = tm.func('ExcelParser.getTokens')
-    loops = [s for s in fn.body if isinstance(s, ast.While)
-             and any(isinstance(c, ast.Call) and isinstance(c.func, ast.Name) and c.func.id == 'EOF'
-                     for c in ast.walk(s.test))]
-    if len(loops) != 1:
-        raise AnchorMissing(f'getTokens: {len(loops)} main `while not EOF()` loops')
-    return tm, fn, loops[0]
-
-
-def rule_2(ctx):
-    tm, fn, loop = _main_loop(ctx)
-    # closures that index the formula at the current offset without their own protection
-    readers = {}
-    eof_names = set()
+    formula = [a.arg for a in fn.args.args if a.arg != 'self'][0]
+    readers, lookahead, eof = {}, set(), set()
     for name, node in tm.funcs.items():
         if not name.startswith('ExcelParser.getTokens.'):
             continue
-        short = name.rsplit('.', 1)[1]
-        idx = [s for s in ast.walk(node) if isinstance(s, ast.Subscript)
-               and not isinstance(s.slice, ast.Slice)]
+        short = node.name
+        idx = [s for s in ast.walk(node) if isinstance(s, ast.Subscript) and not isinstance(s.slice, ast.Slice)
+               and isinstance(s.value, ast.Name) and s.value.id == formula]
         guarded = any(isinstance(s, ast.Try) for s in ast.walk(node))
         if idx and not guarded:
             readers[short] = node
+        if idx and guarded:
+            lookahead.add(short)
         if any(isinstance(c, ast.Compare) and any(isinstance(x, ast.Call) and isinstance(x.func, ast.Name)
-               and x.func.id == 'len' for x in ast.walk(c)) for c in ast.walk(node)):
-            eof_names.add(short)
-    if not readers or not eof_names:
+               and x.func.id == 'len' and names_in(x) & {formula} for x in ast.walk(c)) for c in ast.walk(node)):
+            eof.add(short)
+    if not readers or not eof:
         raise AnchorMissing('getTokens: reader / end-of-input closures not found')
     offset_names = set()
     for node in readers.values():
         for s in ast.walk(node):
             if isinstance(s, ast.Subscript):
                 offset_names |= names_in(s.slice)
+    return {'tm': tm, 'fn': fn, 'formula': formula, 'readers': readers, 'lookahead': lookahead, 'eof': eof,
+            'offset': offset_names}
+
+
+def _main_loop(ctx):
+    r = _roles(ctx)
+    tm, fn = r['tm'], r['fn']
+    loops = [s for s in fn.body if isinstance(s, ast.While)
+             and any(isinstance(c, ast.Call) and isinstance(c.func, ast.Name) and c.func.id in r['eof']
+                     for c in ast.walk(s.test))]
+    if len(loops) != 1:
+        raise AnchorMissing(f'getTokens: {len(loops)} main `while not <end of formula>` loops')
+    return tm, fn, loops[0]
+
+
+def rule_2(ctx):
+    tm, fn, loop = _main_loop(ctx)
+    roles = _roles(ctx)
+    readers, eof_names, offset_names, formula = roles['readers'], roles['eof'], roles['offset'], roles['formula']
     sites = []
     for n in walk_local(fn):
         if isinstance(n, ast.Call) and isinstance(n.func, ast.Name) and n.func.id in readers:
             sites.append(n)
         elif isinstance(n, ast.Subscript) and not isinstance(n.slice, ast.Slice) \
-                and isinstance(n.value, ast.Name) and n.value.id == 'formula' \
+                and isinstance(n.value, ast.Name) and n.value.id == formula \
                 and names_in(n.slice) & offset_names and flow.contains(loop, n):
             sites.append(n)
     counter = {}
@@ -343,9 +354,9 @@ def rule_3(ctx):
     pv = pre.target.id
     for sub, want in ((consts['TOK_SUBTYPE_START'], 2), (consts['TOK_SUBTYPE_STOP'], 1)):
         it = Interp(ctx.a, pm, {pv: Rec(ttype=F, tsubtype=sub, tvalue='SUM'), 'named_ranges': {}},
-                    effect_receivers=('tokens', 'tokenizer'))
+                    effect_receivers=('tokenizer',), record_unknown=True)
         out = it.run(pre.body)
-        appended = [e for e in out.events if e[0] == 'tokens.append']
+        appended = [e for e in out.events if e[0].endswith('.append')]
         ctx.expect(len(appended) == want, pre, f'pre-pass function/{sub}',
                    f'function {sub} token yields {len(appended)} tokens, expected {want}')
     # create_node: node class per kind
@@ -456,30 +467,36 @@ def rule_5(ctx):
     if strflag is None:
         raise AnchorMissing('string state block (emits TOK_SUBTYPE_TEXT)')
     name, s = strflag
+    roles = _roles(ctx)
+    emits0 = [c for c in ast.walk(s) if isinstance(c, ast.Call) and isinstance(c.func, ast.Attribute) and c.func.attr == 'add'
+              and any(isinstance(x, ast.Attribute) and x.attr == 'TOK_SUBTYPE_TEXT' for x in ast.walk(c))]
+    if not emits0 or not isinstance(emits0[0].args[0], ast.Name):
+        raise Unmodelled('text token is not emitted from a local accumulator')
+    acc = emits0[0].args[0].id
     for n in ast.walk(s):
-        if isinstance(n, ast.AugAssign) and isinstance(n.target, ast.Name) and n.target.id == 'token':
+        if isinstance(n, ast.AugAssign) and isinstance(n.target, ast.Name) and n.target.id == acc:
             v = n.value
-            verbatim = (isinstance(v, ast.Call) and isinstance(v.func, ast.Name) and v.func.id == 'currentChar') \
+            verbatim = (isinstance(v, ast.Call) and isinstance(v.func, ast.Name) and v.func.id in roles['readers']) \
                 or (isinstance(v, ast.Constant) and v.value == '"')
             ctx.expect(isinstance(n.op, ast.Add) and verbatim, n, f'string accumulation `{ast.unparse(v)[:20]}`',
                        f'characters of a string literal are transformed: token {type(n.op).__name__}= {ast.unparse(v)}')
-        elif isinstance(n, ast.Assign) and any(isinstance(t, ast.Name) and t.id == 'token' for t in n.targets):
+        elif isinstance(n, ast.Assign) and any(isinstance(t, ast.Name) and t.id == acc for t in n.targets):
             ok = isinstance(n.value, ast.Constant) and n.value.value == ''
             ctx.expect(ok, n, 'string accumulator reset', 'string accumulator assigned a non-empty value')
     # doubled quote: the branch consuming two characters appends exactly one quote
     dq = [n for n in ast.walk(s) if isinstance(n, ast.If) and any(
-        isinstance(c, ast.Call) and isinstance(c.func, ast.Name) and c.func.id == 'nextChar' for c in ast.walk(n.test))]
+        isinstance(c, ast.Call) and isinstance(c.func, ast.Name) and c.func.id in roles['lookahead'] for c in ast.walk(n.test))]
     ok = False
     if dq:
         body = dq[0].body
-        adds = [b for b in body if isinstance(b, ast.AugAssign) and isinstance(b.target, ast.Name) and b.target.id == 'token']
-        skips = [b for b in body if isinstance(b, ast.AugAssign) and isinstance(b.target, ast.Name) and b.target.id == 'offset']
+        adds = [b for b in body if isinstance(b, ast.AugAssign) and isinstance(b.target, ast.Name) and b.target.id == acc]
+        skips = [b for b in body if isinstance(b, ast.AugAssign) and isinstance(b.target, ast.Name) and b.target.id in roles['offset']]
         ok = len(adds) == 1 and isinstance(adds[0].value, ast.Constant) and adds[0].value.value == '"' and len(skips) == 1
     ctx.expect(ok, s, 'doubled quote -> one quote', 'a doubled quote inside a string does not yield exactly one quote character')
     # the text token is emitted with the accumulated content, unchanged
     emits = [c for c in ast.walk(s) if isinstance(c, ast.Call) and isinstance(c.func, ast.Attribute) and c.func.attr == 'add'
              and any(isinstance(x, ast.Attribute) and x.attr == 'TOK_SUBTYPE_TEXT' for x in ast.walk(c))]
-    ok = len(emits) == 1 and isinstance(emits[0].args[0], ast.Name) and emits[0].args[0].id == 'token'
+    ok = len(emits) == 1 and isinstance(emits[0].args[0], ast.Name) and emits[0].args[0].id == acc
     ctx.expect(ok, s, 'text operand carries the accumulated characters',
                'the text token is not emitted with the accumulated characters as they are')
     ctx.floor(12, 'state blocks, accumulation sites')
@@ -616,6 +633,7 @@ def rule_9(ctx):
     c01.rule_1(ctx)
     c01.rule_2(ctx)
     c01.rule_3(ctx)
+    c01.rule_5(ctx)
 
 
 def rule_6(ctx):
@@ -638,5 +656,5 @@ RULES = [
     ('C02.6', 'formula tokenised on construction', rule_6),
     ('C02.7', 'leading "=", blanks, "@" are removed', rule_7),
     ('C02.8', 'white-space filter decision table (blank vs intersection operator)', rule_8),
-    ('C02.9', 'operator tree shape (precedence relation, pop table, operand order; shared with C01)', rule_9),
+    ('C02.9', 'operator tree shape (precedence relation, pop table, operand order, prefix/infix switch; shared with C01)', rule_9),
 ]
